@@ -19,6 +19,7 @@ type refEntry struct {
 	v       int
 	exp     int64
 	lastUse int
+	stored  int // operation index of the store that produced this entry
 }
 
 type cacheRun struct {
@@ -29,6 +30,9 @@ type cacheRun struct {
 	ref      map[string]*refEntry
 	everSet  map[string]bool
 	opIdx    int
+	// operation index of the last Set at which the unexpired entries of the reference (a superset of the unexpired entries the
+	// cache can hold) plus the key being stored did not fit the capacity; 0 = never
+	lastExceed int
 	hist     []M // operations of this history (replay)
 	withOrd  bool
 }
@@ -115,6 +119,17 @@ func (r *cacheRun) set(k string, v int, ttl time.Duration) {
 	if hooksOn {
 		before, _, _ = cacheSnapshot(r.c)
 	}
+	{
+		live := 0
+		for o, oe := range r.ref {
+			if o != k && !r.expiredRef(oe, now) {
+				live++
+			}
+		}
+		if live+1 > r.cap {
+			r.lastExceed = r.opIdx
+		}
+	}
 	r.c.Set(k, v, ttl)
 	o := r.obsState(M{"r": "ok"})
 	r.record(M{"op": "set", "now": now, "k": k, "v": v, "ttl": int64(ttl), "obs": o})
@@ -190,7 +205,7 @@ func (r *cacheRun) set(k string, v int, ttl time.Duration) {
 			}
 		}
 	}
-	r.ref[k] = &refEntry{v: v, exp: now + int64(ttl), lastUse: r.opIdx}
+	r.ref[k] = &refEntry{v: v, exp: now + int64(ttl), lastUse: r.opIdx, stored: r.opIdx}
 }
 
 // lostLive judges the loss of an unexpired, undeleted entry: allowed only if at least cap distinct other keys were used since its last use
@@ -209,6 +224,10 @@ func (r *cacheRun) lostLive(k string, now int64) {
 	}
 	if len(r.everSet) <= r.cap {
 		T.oracle("C12", "live entry not observable although capacity was never exceeded", M{"key": k}, r.replay())
+	} else if r.lastExceed < e.stored {
+		// since this entry was stored, every Set found the unexpired entries (plus its own key) within the capacity: a full
+		// cache then holds an entry whose lifetime has elapsed, and that slot is the one to reclaim
+		T.oracle("C12", "live entry not observable although the unexpired entries never exceeded the capacity since it was stored", M{"key": k, "cap": r.cap}, r.replay())
 	}
 }
 
@@ -508,6 +527,10 @@ func cacheConcurrent() {
 		}
 		workers := 2 + rng.Intn(15)
 		keys := cap + 4
+		keysFit := cap == 500 && (round/3)%2 == 0
+		if keysFit {
+			keys = 60 // with the owners' keys far below the capacity: no eviction can happen in this round
+		}
 		var wg sync.WaitGroup
 		bad := make(chan string, 100)
 		done := make(chan struct{})
@@ -544,6 +567,37 @@ func cacheConcurrent() {
 					}
 				}
 			}(w)
+		}
+		// owners and cleaners (rounds in which the key universe fits the capacity, so nothing may ever be evicted): each owner
+		// re-stores its own key — first with an already elapsed lifetime, then with a long one — and must read it back, while
+		// cleaners run Cleanup and the other workers churn the shared keys
+		if keysFit {
+			for ow := 0; ow < 4; ow++ {
+				wg.Add(2)
+				go func(ow int) {
+					defer wg.Done()
+					defer func() { recover() }()
+					own := fmt.Sprintf("own%d", ow)
+					for i := 0; i < 4000; i++ {
+						c.Set(own, own, time.Nanosecond)
+						c.Set(own, own, time.Hour)
+						if v, ok := c.Get(own); !ok || v.(string) != own {
+							select {
+							case bad <- fmt.Sprintf("unexpired entry lost: %s stored with a one-hour lifetime by its only writer is not observable, capacity never reached", own):
+							default:
+							}
+							return
+						}
+					}
+				}(ow)
+				go func() {
+					defer wg.Done()
+					defer func() { recover() }()
+					for i := 0; i < 4000; i++ {
+						c.Cleanup()
+					}
+				}()
+			}
 		}
 		go func() { wg.Wait(); close(done) }()
 		select {
